@@ -51,7 +51,7 @@ type rlScn struct {
 	ctxs  []mangos.Context
 	pctxs []protocol.Context
 	pipes map[string]*vt.Pipe
-	id2p  map[uint32]string
+	ids   *hx.IDMap
 	npipe int
 	nreq  int
 	nrep  int
@@ -103,7 +103,7 @@ func (c *rlScn) snap() {
 		}
 		p := "-"
 		if rp != 0 {
-			p = c.id2p[rp]
+			p = c.ids.Name(rp)
 		}
 		cs = append(cs, map[string]interface{}{"closed": closed, "rw": rw, "hasbt": hasbt, "bt": words, "rp": p})
 	}
@@ -250,7 +250,8 @@ func (c *rlScn) step(st string) {
 func runRepLike(t *testing.T, cfg rlCfg, seed int64) sim.Result {
 	return sim.Run(t, 10*time.Second, func(s *sim.S) {
 		defer withLedger(s.Rec)()
-		c := &rlScn{s: s, cfg: cfg, pipes: map[string]*vt.Pipe{}, id2p: map[uint32]string{}, rng: rand.New(rand.NewSource(seed))}
+		baseIDs := hx.BaseIDs()
+		c := &rlScn{s: s, cfg: cfg, pipes: map[string]*vt.Pipe{}, ids: hx.NewIDMap(), rng: rand.New(rand.NewSource(seed))}
 		s.Net.Decode = rlDecode
 		if cfg.Kind == "rep" {
 			c.proto = rep.NewProtocol()
@@ -259,7 +260,7 @@ func runRepLike(t *testing.T, cfg rlCfg, seed int64) sim.Result {
 		}
 		rp := &hx.RecProto{Protocol: c.proto, Rec: s.Rec, Early: true}
 		c.sock = protocol.MakeSocket(rp)
-		hx.Hook(c.sock, s.Rec, func(ev, name string, p mangos.Pipe) { c.id2p[p.ID()] = name })
+		hx.Hook(c.sock, s.Rec, func(ev, name string, p mangos.Pipe) { c.ids.Set(p.ID(), name) })
 		must := func(err error) {
 			if err != nil {
 				panic(err)
@@ -308,6 +309,7 @@ func runRepLike(t *testing.T, cfg rlCfg, seed int64) sim.Result {
 		g := sim.Census()
 		sort.Strings(g)
 		s.Rec.Emit("census", "n", len(g), "g", fmt.Sprint(g))
+		hx.Final(s.Rec, c.sock, baseIDs)
 	})
 }
 
@@ -428,6 +430,7 @@ func testRepLike(t *testing.T, kind string) {
 		if out.Stop() {
 			break
 		}
+		cfg.Steps = closeMix(cfg.Steps, rng, []string{"recv c0", "send c0", "recv c1", "send c1", "conn", "req p1 1", "cclose c1", "adv 1s", "recv c0", "sclose"})
 		res := runRepLike(t, cfg, seed()*1000+int64(i))
 		out.Add(fmt.Sprintf("%s-%d", kind, i), rlCfgEv(cfg), fmt.Sprint(cfg), res)
 	}
